@@ -643,6 +643,43 @@ def auto_ops(c, rules, prefix):
             for k in range(len(st) - n + 1):
                 if st[k:k + n] == pat and _free_standing(st, k):
                     out.append((sig[k][1], sig[k + n - 1][2], 'rep', rule[2], {'tag': rule[3] if len(rule) > 3 else 'T15'}))
+    if 'map_err_q' in rules:
+        # T14b: CHAIN.map_err(|e| ..)?  ->  (match CHAIN { Ok(v) => v, Err(e) => return Err(io_error_other(e)) })   CHAIN (a postfix chain
+        # `a.b(..).c(..)`) stays verbatim; the closure only converts the error value (std: Result::map_err, the `?` operator)
+        for k in range(1, len(st) - 6):
+            if st[k] == '.' and st[k + 1] == 'map_err' and st[k + 2] == '(' and st[k + 3] == '|':
+                close = match_close(st, k + 2)
+                if close + 1 >= len(st) or st[close + 1] != '?':
+                    continue
+                # walk back over the postfix chain
+                j = k - 1
+                while j >= 0:
+                    if st[j] in CLOSE:
+                        depth, i2 = 0, j
+                        while i2 >= 0:
+                            if st[i2] in CLOSE:
+                                depth += 1
+                            elif st[i2] in OPEN:
+                                depth -= 1
+                                if depth == 0:
+                                    break
+                            i2 -= 1
+                        j = i2 - 1
+                        continue
+                    if re.fullmatch(r'[A-Za-z_][A-Za-z0-9_]*', st[j]) or st[j] == '.' or st[j] == '&':
+                        if st[j] in ('return', 'match', 'if', 'in', 'let', 'else', 'mut'):
+                            break
+                        j -= 1
+                        continue
+                    if st[j] == ':' and j > 0 and st[j - 1] == ':':
+                        j -= 2
+                        continue
+                    break
+                start = j + 1
+                if start >= k:
+                    continue
+                out.append((sig[start][1], sig[start][1], 'ins', '(match ', {'tag': 'T14b'}))
+                out.append((sig[k][1], sig[close + 1][2], 'rep', ' { Ok(v__) => v__, Err(e__) => return Err(io_error_other(e__)) })', {'tag': 'T14b'}))
     if 'then_some' in rules:
         # T14b: B.then_some(L)[.or_else(|| C.then_some(M))]*.unwrap_or_default()  ->  (if B { L } [else if C { M }]* else { "" })
         # for B an identifier or a parenthesised expression; B, C, L, M stay verbatim
